@@ -21,6 +21,7 @@ func genCrash(g *Gen) {
 		rw := newLineRewriter(g, "crash")
 		l := rw.l
 		resetSpenders()
+		removed := ""
 		flush := func() {
 			rw.flush(func(op, body string) (string, string) {
 				if op == "recvtx" {
@@ -31,7 +32,7 @@ func genCrash(g *Gen) {
 						return "", ""
 					}
 				}
-				if bg && (op == "recvtx" || isObservation(strings.Fields(body))) {
+				if bg && (op == "recvtx" || (op == "notify" && removed != "") || isObservation(strings.Fields(body))) {
 					// the ledger model does not cover import / removal: executed and recorded only
 					return "rec", "rec " + body
 				}
@@ -55,7 +56,6 @@ func genCrash(g *Gen) {
 		lazy := g.Rng.Intn(3) == 0
 		imp := ""     // external wallet prepared / imported
 		impState := 0 // 0 none, 1 prepared, 2 imported (importing), 3 done
-		removed := ""
 		if bg {
 			imp = "WI"
 			rw.emit("mkimport", "mkimport WI 2")
